@@ -2383,6 +2383,9 @@ namespace igris
 
         static_vector &operator=(const static_vector &other)
         {
+            if (this == &other)
+                return *this;
+            clear(); // the old elements are destroyed, not constructed over
             m_size = other.m_size;
             for (igris::size_t pos = 0; pos < m_size; ++pos)
             {
@@ -2393,12 +2396,15 @@ namespace igris
 
         static_vector &operator=(static_vector &&other)
         {
+            if (this == &other)
+                return *this;
+            clear(); // the old elements are destroyed, not constructed over
             m_size = other.m_size;
             for (igris::size_t pos = 0; pos < m_size; ++pos)
             {
                 new (&_data[pos]) T(igris::move(other[pos]));
             }
-            other.m_size = 0;
+            other.clear();
             return *this;
         }
 
